@@ -1,6 +1,7 @@
 """vf.stubs — environment stubs for the symbolic process (listed in every evidence file)."""
 
 LIST = [
+    "kaitai: KaitaiStream is replaced by a stream over symbolic bytes (sxl/kstream.py); the generated parser classes themselves run unmodified",
     "logging disabled (logging.disable(CRITICAL)); print() is a no-op in library code",
     "secrets.token_bytes(n) -> n fresh symbolic octets",
     "text built from symbolic values (repr/format) is an opaque string; comparing it makes the run inconclusive",
@@ -10,3 +11,9 @@ LIST = [
 def install():
     from sxl import runtime
     runtime._DISPATCH[print] = runtime._print
+    try:
+        from kaitaistruct import KaitaiStream
+        from sxl import kstream
+        runtime._DISPATCH[KaitaiStream.resolve_enum] = kstream.resolve_enum
+    except ImportError:
+        pass
